@@ -2,7 +2,7 @@
    The compressors are external code: a Section variable with one recorded hypothesis ([codec_ok]: a run of compress calls
    followed by finish yields one stream that decompresses to the concatenation of the input).  What is proved is the writers'
    discipline around them, for every sequence of writes in any chunking and every rotation pattern.  Only statements here. *)
-Require Import Base Writer WriterProofs.
+Require Import Base Exporter Writer WriterProofs ExporterIO ExporterIOProofs.
 Local Open Scope N_scope.
 
 Section C14.
@@ -31,6 +31,17 @@ Section C14.
 End C14.
 Print Assumptions C14_transparent.
 Print Assumptions C14_one_stream_per_output.
+
+(* the same for an exporter on top: whatever codec satisfies codec_ok, what the inner writer of a gzip / xz exporter receives decompresses,
+   output by output, to the outputs of the exporter model (closed outputs oldest first, then what destruction closes) *)
+Theorem C14_exporter_outputs : forall (cstate : Type) cinit crun cfinish decompress,
+  (forall chunks, decompress (cstream cstate crun cfinish cinit chunks) = Some (concat chunks)) ->
+  forall pre ops ids cur, let x := xrun (x_new pre) ops in
+  Forall2 (fun zo p => decompress (snd zo) = Some p)
+          (outputs_of cur [] (czip cstate cinit crun cfinish cinit (run_wops (x_new pre) ops ids ++ destroy_wops x) true) true)
+          (rev (x_closed x) ++ [destroy x]).
+Proof. exact exporter_compressed. Qed.
+Print Assumptions C14_exporter_outputs.
 
 (* non-vacuity: the identity codec with a one-byte trailer satisfies the hypothesis *)
 Example C14_nonvacuous :
